@@ -389,6 +389,9 @@ func runC06(c *fw.Ctx) {
 			c.Eval(1)
 			var err error
 			w, err = openWorld(scratchFile(c.Scratch, idx))
+			if w != nil {
+				w.solo = true
+			}
 			if err != nil {
 				c.Inconclusive("open engine: " + err.Error())
 				return
@@ -508,6 +511,9 @@ func c06Options(c *fw.Ctx) {
 							c.Count("option_combinations", 1)
 							var err error
 							w, err = openWorld(scratchFile(c.Scratch, idx))
+							if w != nil {
+								w.solo = true
+							}
 							if err != nil {
 								c.Inconclusive("open engine: " + err.Error())
 								return
